@@ -385,7 +385,9 @@ def anonymize_line(an, line):
 
 FS_LINES = ["router bgp 65001", " neighbor peer1 remote-as 65001", " bgp confederation peers 12 65001 64512",
             "route-map RM-65001-IN permit 12", "ip as-path access-list 12 permit _65001_", "AS65001 x12 y 165001 12",
-            "65001", "\t12\t", "bgp asnotation dot 1.65001 65001.12"]
+            "65001", "\t12\t", "bgp asnotation dot 1.65001 65001.12",
+            # the smallest and the largest AS number, also as halves of colon notation
+            " neighbor p remote-as 0", "set extcommunity rt 0:100 65001:0 4294967295:1", "as-path _0_ 4294967295"]
 
 
 class FeatureSubsets(Part):
@@ -412,7 +414,7 @@ class FeatureSubsets(Part):
         from netconan.anonymize_files import FileAnonymizer, anonymize_files
 
         res = Res()
-        lst, salt = ["65001", "12", "64512"], "saltForTest"
+        lst, salt = ["65001", "12", "64512", "0", "4294967295"], "saltForTest"
         rep = {n: make([n], salt).anonymize(n) for n in lst}
         text = "".join(l + "\n" for l in FS_LINES)
         kw = dict(anon_pwd=case["pwd"], anon_ip=case["ip"] == "anonymize", undo_ip_anon=case["ip"] == "undo",
